@@ -54,6 +54,11 @@ def initial_content(kind: str, st: dict | None) -> bytes:
     code = "value1 := 1;\nvalue2 := 2;\n"
     if kind == "empty":
         return b""
+    if kind == "bomcode":    # a byte order mark in front of ordinary code
+        return b"\xef\xbb\xbf" + code.encode()
+    if kind == "josecode":   # a header that already names a holder with non-ASCII letters
+        return ("# SPDX-FileCopyrightText: 2019 Jos\u00e9 Garc\u00eda\n# SPDX-License-Identifier: Zlib\n\n" + code).encode() if st is None or st.get("name") == "python" else \
+               ((lambda t: st["single"] + st["ias"] + t) if st["hasSingle"] else (lambda t: st["ms"] + " " + t + " " + st["me"]))("SPDX-FileCopyrightText: 2019 Jos\u00e9 Garc\u00eda").encode() + b"\n\n" + code.encode()
     if kind == "longcode":   # more than 4 KiB of code below the place where the header goes
         return "".join(f"value{n} := {n} + {n};  -- line {n} of a long file\n" for n in range(1, 130)).encode()
     if kind == "binary7":    # binary by content (control characters throughout) although every byte is valid UTF-8
@@ -162,7 +167,7 @@ def req_record(req: dict, flavour: dict) -> dict:
     return {"cop": cop, "verb": [asc(v) for v in req.get("verb", [])], "lic": list(req["lic"]), "con": [asc(c) for c in req["con"]],
             "merge": bool(flavour.get("merge")), "skipExisting": bool(flavour.get("skip_existing")),
             "skipUnrecognised": bool(flavour.get("skip_unrecognised")),
-            "rendersCon": flavour.get("template") not in ("nocon", "droplic", "dropcop", "dropall", "pydrop", "pydroplic", "pydropcop"),
+            "rendersCon": flavour.get("template") not in ("nocon", "droplic", "dropcop", "dropall", "pydrop", "pydroplic", "pydropcop", "literal"),
             "noReplace": bool(flavour.get("no_replace"))}
 
 
@@ -208,6 +213,9 @@ def run_history(case: dict) -> list:
         (tdir / "pydropcop.commented.jinja2").write_text(
             "# Fixed notice of the company, no holder of the file\n#\n{% for expression in spdx_expressions %}\n"
             "# SPDX-License-Identifier: {{ expression }}\n{% endfor %}\n")
+        (tdir / "literal.jinja2").write_text(
+            "Copyright ACME Corp. All rights reserved.\n{% for copyright_line in copyright_lines %}\n{{ copyright_line }}\n{% endfor %}\n\n"
+            "{% for expression in spdx_expressions %}\nSPDX-License-Identifier: {{ expression }}\n{% endfor %}\nSPDX-License-Identifier: Zlib\n")
         (tdir / "pydroplic.commented.jinja2").write_text(
             "{% for copyright_line in copyright_lines %}\n# {{ copyright_line }}\n{% endfor %}\n#\n# Licence: see LICENSE\n")
         styles = {s["name"]: s for s in annmodel.style_table()}
